@@ -18,7 +18,7 @@ LEVEL_TEXT = ("per sampled authentic file the fault space named by the property 
               "sample that always contains the last cut points and all structural fields); files themselves are sampled")
 LEVEL_NOTE = ("oracle: raise, or content equal to the original (comments + components; session key when at least one "
               "component binds it); auth-block list not compared; trusts RefDir only for naming regions")
-RUNS = {"quick": 1600, "thorough": 480}
+RUNS = {"quick": 1400, "thorough": 480}
 OPTIMIZED_PASS = {"quick": 100, "thorough": 30}   # extra runs under PYTHONOPTIMIZE=1 (assert statements removed)
 RUN_WALL_CAP = 1800   # a thorough run enumerates every fault of one file
 RULE = ("per run one authentic BF3/BEC2 file (seeded shapes of C01/C02) and a list of single faults, "
